@@ -8,4 +8,27 @@ use vstd::prelude::*;
 #[derive(Debug)]
 pub struct Error { _p: () }
 
+
+/// stand-in for dbase::WritableRecord / ReadableRecord (marker only)
+pub trait WritableRecord {}
+pub trait ReadableRecord {}
+
+/// stand-in for dbase::TableWriter<T>: only the row count is modelled.
+/// Contract read off dbase-0.6.1 src/writing.rs (write_record): the row counter is incremented only
+/// after the record was written; a record that fails validation is rejected before anything is counted.
+#[verifier::external_body]
+#[verifier::reject_recursive_types(T)]
+pub struct TableWriter<T: std::io::Write + std::io::Seek> { _p: core::marker::PhantomData<T> }
+
+impl<T: std::io::Write + std::io::Seek> TableWriter<T> {
+    pub uninterp spec fn rows(&self) -> nat;
+
+    #[verifier::external_body]
+    pub fn write_record<R: WritableRecord>(&mut self, record: &R) -> (r: Result<(), Error>)
+        ensures
+            r is Ok ==> final(self).rows() == old(self).rows() + 1,
+            r is Err ==> final(self).rows() == old(self).rows(),
+    { unimplemented!() }
+}
+
 } // mod dbase
